@@ -13,7 +13,7 @@ import (
 )
 
 func init() {
-	register("C12", 40, "Decided (for the current source): (T) an interprocedural forward taint from every peer-controlled integer (results of ParseInt/Atoi on received text; integer fields of objects decoded from the peer: hash steps, sizes, path ids, config numbers) through conversions, arithmetic, calls/returns, struct fields, atomics, variables and channels to every allocation/crash sink (make length/capacity, Buffer.Grow, Repeat count, slice bounds, indexes, integer divisors, channel sizes); at each sink the value must be bounded on both sides by constants or untainted quantities through dominating comparisons, clamp phis, min(), or subtraction under an ordering fact; (G) constant-offset accesses into received text (x[k], x[k:], x[a:idx]) in the line parsers and terminal-output scanners are dominated by the length/index test that makes them safe; (L) the escape tables are 256 entries so any byte indexes them; (K) panic containment is as the property states (recover only in the client handler goroutine and the servers' main goroutine), which is why (T) and (G) demand that no peer value reaches a panicking construct at all. Not decided: panics inside third-party decoders (zstd, zlib, json) on malformed input, memory of decompression (zlib bomb in decodeString: noted), variable-variable bounds in scanners beyond the listed idioms (cross-referenced once with the compiler's unproven bounds-check list).",
+	register("C12", 40, "Decided (for the current source): (T) an interprocedural forward taint from every peer-controlled integer (results of ParseInt/Atoi on received text; integer fields of objects decoded from the peer: hash steps, sizes, path ids, config numbers) through conversions, arithmetic, calls/returns, struct fields, atomics, variables and channels to every allocation/crash sink (make length/capacity, Buffer.Grow, Repeat count, slice bounds, indexes, integer divisors, channel sizes); at each sink the value must be bounded on both sides by constants or untainted quantities through dominating comparisons, clamp phis, min(), or subtraction under an ordering fact; (G) constant-offset accesses into received text (x[k], x[k:], x[a:idx]) in the line parsers and terminal-output scanners are dominated by the length/index test that makes them safe; (L) the escape tables are 256 entries so any byte indexes them; (K) panic containment is as the property states (recover only in the client handler goroutine and the servers' main goroutine), which is why (T) and (G) demand that no peer value reaches a panicking construct at all. Not decided: panics inside third-party decoders (zstd, zlib, json) on malformed input, memory of decompression (zlib bomb in decodeString: noted), variable-variable bounds in scanners beyond the listed idioms (cross-referenced once with the compiler's unproven bounds-check list). (D) no dereference / interface call / nil-receiver method call on the edge where the value was just found nil or a comma-ok assertion failed; (U) the escape decoder never writes into an empty output buffer and returns when it is full.",
 		func(c *Ctx) {
 			c.run("C12-T", "TAINT: peer integers reach allocation/crash sinks only two-sidedly bounded", c12Taint)
 			c.run("C12-B", "WHO-READS: the peer's buffer-size limit only ever limits (argument of min / right side of <), sizes grow by doubling per acknowledged full chunk", c12BufLimit)
